@@ -126,6 +126,28 @@ async def run_history(ctx, case):
         returned.append((i, out[1]))
         return out[1]
 
+    cross_first = {}
+
+    def cross_parse(i, why):
+        """the string of pool entry i given to the OTHER parser: no string is well-formed for both grammars, so this is a SyntaxError, whatever
+        the string's own parser has cached for it"""
+        kind, s, _ast = pool[i]
+        other = "ahb" if kind == "cond" else "cond"
+        ctx.evaluation()
+        ctx.count("cross_parser_calls")
+        out = capture(PARSERS[other], s)
+        log.append(f"cross#{i}({why})")
+        what = "tree" if out[0] == "ok" else type(out[1]).__name__
+        if i not in cross_first:
+            cross_first[i] = what
+        if what != cross_first[i] or what != "SyntaxError":
+            fail("history-dependent-parse", f"{other} parser on the {kind} string {s!r} ({why}): {describe(out)[:200]}; given to this parser before its own parser had seen it: {cross_first[i]}")
+            return False
+        return True
+
+    for i in range(0, len(pool), 2):
+        if not cross_parse(i, "before-own-parser"):
+            return
     # evaluation results before the history
     world_asg = {k: rng.choice("FUK") for k in G.RC_POOL}
     before = {}
@@ -137,7 +159,10 @@ async def run_history(ctx, case):
     nviol = sum(ctx.violation_counts.values())
     for step in range(nops):
         r = rng.random()
-        if r < 0.45 or not returned:
+        if r < 0.08:
+            if not cross_parse(rng.randrange(len(pool)), "random"):
+                return
+        elif r < 0.45 or not returned:
             parse(rng.randrange(len(pool)), "random")
         elif r < 0.9:
             i, tree = rng.choice(returned)
@@ -166,6 +191,9 @@ async def run_history(ctx, case):
     for i in range(len(pool)):
         if i in pristine:
             parse(i, "final")
+    for i in range(len(pool)):
+        if not cross_parse(i, "final"):
+            return
     for i, (kind, s, ast) in enumerate(pool):
         if ast is not None:
             res = await H.async_requirement(s, E.World("c11", rc=world_asg, fc={k: True for k in G.FC_POOL}))
